@@ -485,6 +485,7 @@ func runC14(r *Run) {
 		}
 		s.close()
 	}
+	r.closeDuringSlowUpgrade()
 	// give-up fires, then the user closes as well; and the other order
 	if f, err := openF("tcp", client.MaxReconnect(1)); err == nil {
 		f.tcp.stopListening()
@@ -649,6 +650,9 @@ func runC16(r *Run) {
 		f.tc.cli.Close(nil)
 		r.nothingLeft(f, "tcp rejected attempt then ok, then Close")
 		f.close()
+	}
+	for i := 0; i < 3; i++ { // Close while a recovery dial waits for a late upgrade answer (WebSocket)
+		r.closeDuringSlowUpgrade()
 	}
 	// stalled peer + close cycles: the writer is blocked in the socket write when the connection is closed
 	{
@@ -994,4 +998,29 @@ func bigBody() *control.Close {
 		b[i] = "0123456789abcdefghijklmnopqrstuvwxyzABCDEFGHIJKLMNOPQRSTUVWXYZ-_"[rng.Intn(64)]
 	}
 	return &control.Close{Reason: string(b)}
+}
+
+// closeDuringSlowUpgrade: Close while a recovery dial is inside the dialer (WebSocket upgrade answered late): whatever
+// the dial returns afterwards must be released.
+func (r *Run) closeDuringSlowUpgrade() {
+	if f, err := openF("ws", client.DialTimeout(3*time.Second)); err == nil {
+		atomic.StoreInt32(&f.ws.stalled, 0)
+		atomic.StoreInt32(&f.ws.stall, 2)
+		f.lk.drop()
+		if waitUntil(3*time.Second, func() bool { return atomic.LoadInt32(&f.ws.stalled) > 0 }) {
+			closed := make(chan struct{})
+			go func() { defer close(closed); defer func() { recover() }(); f.tc.cli.Close(nil) }()
+			time.Sleep(150 * time.Millisecond)
+			atomic.StoreInt32(&f.ws.stall, 0) // the upgrade is answered now: the dial returns a connection
+			select {
+			case <-closed:
+			case <-time.After(4 * time.Second):
+				r.violate(Violation{What: "Close did not return after the pending dial had finished", Case: "ws close during a slow upgrade"})
+			}
+			r.afterCloseQuiet(f, "ws Close while the recovery dial waits for the upgrade answer", 500*time.Millisecond)
+		}
+		atomic.StoreInt32(&f.ws.stall, 0)
+		r.st.Evaluations++
+		f.close()
+	}
 }
